@@ -183,6 +183,9 @@ Inductive seekk := SeekIfPastOne   (* if (fout.tellp() > streampos(1)) fout.seek
                  | SeekAlways      (* fout.seekp(-1, cur);                                   *)
                  | SeekNone | SeekOther.
 Inductive scopek := PerThread | PerChunk | ScopeOther.
+Inductive regk := RegFindOrCreate   (* fnd = threadTrace.find(id); if (fnd == end) { l = make_shared; threadTrace[id] = l; return l; } return fnd->second; *)
+                | RegStoreAlways    (* l = make_shared; threadTrace[id] = l; return l;   (whatever was stored under id is replaced) *)
+                | RegOther.
 
 Record trfacts := mkTr {
   tr_chunk : N;                 (* the constant compared with events.back().size()                    *)
@@ -202,16 +205,22 @@ Record trfacts := mkTr {
   tr_stray_end_break : bool;    (* END with empty stack: break out of the loop over the chunk, before any output *)
   tr_end_top_pop : bool;        (* END: begin = beginEvents.top(); ... beginEvents.pop()               *)
   tr_long_threshold : N;        (* END && duration > <constant> && begin                               *)
-  tr_tid_counter : bool         (* int nextTid = 0; printed as "tid"; ++nextTid per thread             *)
+  tr_tid_counter : bool;        (* int nextTid = 0; printed as "tid"; ++nextTid per thread             *)
+  tr_registry : regk;           (* getThreadTraceList                                                  *)
+  tr_reg_lock_first : bool;     (* its first statement takes threadTraceMutex (lock_guard)             *)
+  tr_tls_cache : bool           (* static thread_local threadEventList, filled once by initThreadEventList via
+                                   getThreadTraceList(this_thread::get_id()); the recording entry points call it first *)
 }.
 
 Definition cmpop_eqb a b := match a, b with CGe, CGe | CGt, CGt | CEq, CEq => true | _, _ => false end.
 Definition seekk_eqb a b := match a, b with SeekIfPastOne, SeekIfPastOne | SeekAlways, SeekAlways | SeekNone, SeekNone => true | _, _ => false end.
 Definition scopek_eqb a b := match a, b with PerThread, PerThread | PerChunk, PerChunk => true | _, _ => false end.
+Definition regk_eqb a b := match a, b with RegFindOrCreate, RegFindOrCreate | RegStoreAlways, RegStoreAlways => true | _, _ => false end.
 
 (* the facts Model.v was written from *)
 Definition model_tr : trfacts :=
-  mkTr 8192 CGe true 8192 true true true 4 4 0 SeekIfPastOne true PerThread true true true 100 true.
+  mkTr 8192 CGe true 8192 true true true 4 4 0 SeekIfPastOne true PerThread true true true 100 true
+       RegFindOrCreate true true.
 
 Definition tr_eqb (a b : trfacts) : bool :=
   N.eqb (tr_chunk a) (tr_chunk b) && cmpop_eqb (tr_cmp a) (tr_cmp b) && Bool.eqb (tr_empty_or a) (tr_empty_or b)
@@ -222,7 +231,9 @@ Definition tr_eqb (a b : trfacts) : bool :=
   && seekk_eqb (tr_seek a) (tr_seek b) && Bool.eqb (tr_close_last a) (tr_close_last b)
   && scopek_eqb (tr_stack_scope a) (tr_stack_scope b) && Bool.eqb (tr_push_begin a) (tr_push_begin b)
   && Bool.eqb (tr_stray_end_break a) (tr_stray_end_break b) && Bool.eqb (tr_end_top_pop a) (tr_end_top_pop b)
-  && N.eqb (tr_long_threshold a) (tr_long_threshold b) && Bool.eqb (tr_tid_counter a) (tr_tid_counter b).
+  && N.eqb (tr_long_threshold a) (tr_long_threshold b) && Bool.eqb (tr_tid_counter a) (tr_tid_counter b)
+  && regk_eqb (tr_registry a) (tr_registry b) && Bool.eqb (tr_reg_lock_first a) (tr_reg_lock_first b)
+  && Bool.eqb (tr_tls_cache a) (tr_tls_cache b).
 
 (* the parts of the model that depend on these facts, with the facts as a parameter *)
 Definition cmp_test (c : cmpop) (size k : N) : bool :=
@@ -249,6 +260,22 @@ Fixpoint emit_chunks_of (f : trfacts) (pid tid : N) (chunks : tlist) (stack : li
       o ++ emit_chunks_of f pid tid cs (match tr_stack_scope f with PerThread => s | _ => [] end)
   end.
 
+(* getThreadTraceList as the facts describe it *)
+Definition reg_attach_of (f : trfacts) (r : reg) (id : N) : reg :=
+  match tr_registry f with
+  | RegFindOrCreate => reg_attach r id
+  | _ => match reg_find r id with
+         | Some _ => reg_upd r id (fun _ => mkRe id None [])      (* the stored list is replaced by a fresh one *)
+         | None => r ++ [mkRe id None []]
+         end
+  end.
+
+Definition reg_step_of (f : trfacts) (r : reg) (o : rop) : reg :=
+  match o with
+  | RAttach id => reg_attach_of f r id
+  | _ => reg_step r o
+  end.
+
 Definition is_long_of (f : trfacts) (b e : tev) : bool := tr_long_threshold f <? (e_time e - e_time b) / 1000.
 
 Lemma model_get_current l : get_current_of model_tr l = get_current l.
@@ -271,6 +298,19 @@ Qed.
 Lemma model_is_long b e : is_long_of model_tr b e = is_long b e.
 Proof. reflexivity. Qed.
 
+Lemma model_attach r id : reg_attach_of model_tr r id = reg_attach r id.
+Proof. reflexivity. Qed.
+
+(* why the find-or-create shape matters: with an unconditional store a thread that receives the id
+   of a finished thread makes the recorder forget the finished thread's events *)
+Lemma store_always_loses :
+  let f := mkTr 8192 CGe true 8192 true true true 4 4 0 SeekIfPastOne true PerThread true true true 100 true RegStoreAlways true true in
+  let e1 := mkEv KMarker [97] None 0 1 [] in
+  let e2 := mkEv KMarker [98] None 0 2 [] in
+  let ops := [RAttach 7; RRec 7 e1; RAttach 7; RRec 7 e2] in
+  concat (reg_get (fold_left (reg_step_of f) ops []) 7) = [e2] /\ concat (reg_get (reg_run ops) 7) = [e1; e2].
+Proof. vm_compute. split; reflexivity. Qed.
+
 Lemma model_chunk : tr_chunk model_tr = chunk_size /\ tr_reserve model_tr = chunk_size.
 Proof. split; reflexivity. Qed.
 
@@ -278,7 +318,8 @@ Proof. split; reflexivity. Qed.
 Lemma tr_eqb_fields a b :
   tr_eqb a b = true ->
   tr_chunk a = tr_chunk b /\ tr_cmp a = tr_cmp b /\ tr_empty_or a = tr_empty_or b /\ tr_reserve a = tr_reserve b /\
-  tr_seek a = tr_seek b /\ tr_stack_scope a = tr_stack_scope b /\ tr_long_threshold a = tr_long_threshold b.
+  tr_seek a = tr_seek b /\ tr_stack_scope a = tr_stack_scope b /\ tr_long_threshold a = tr_long_threshold b /\
+  tr_registry a = tr_registry b.
 Proof.
   unfold tr_eqb. intro H.
   repeat match goal with H : _ && _ = true |- _ => apply andb_true_iff in H; destruct H end.
@@ -290,6 +331,7 @@ Proof.
   - destruct (tr_cmp a), (tr_cmp b); try discriminate; reflexivity.
   - destruct (tr_seek a), (tr_seek b); try discriminate; reflexivity.
   - destruct (tr_stack_scope a), (tr_stack_scope b); try discriminate; reflexivity.
+  - destruct (tr_registry a), (tr_registry b); try discriminate; reflexivity.
 Qed.
 
 Lemma tr_match_sound g :
@@ -298,10 +340,11 @@ Lemma tr_match_sound g :
   (forall s, seek_of g s = seek_overwrite s) /\
   (forall pid tid cs st, emit_chunks_of g pid tid cs st = emit_chunks pid tid cs st) /\
   (forall b e, is_long_of g b e = is_long b e) /\
-  tr_chunk g = chunk_size /\ tr_reserve g = chunk_size.
+  tr_chunk g = chunk_size /\ tr_reserve g = chunk_size /\
+  (forall r id, reg_attach_of g r id = reg_attach r id).
 Proof.
-  intro H. destruct (tr_eqb_fields _ _ H) as [H1 [H2 [H3 [H4 [H5 [H6 H7]]]]]].
-  split; [|split; [|split; [|split; [|split]]]].
+  intro H. destruct (tr_eqb_fields _ _ H) as [H1 [H2 [H3 [H4 [H5 [H6 [H7 H8]]]]]]].
+  split; [|split; [|split; [|split; [|split; [|split]]]]].
   - intro l. rewrite <- model_get_current. unfold get_current_of. rewrite H1, H2, H3. reflexivity.
   - intro s. rewrite <- model_seek. unfold seek_of. rewrite H5. reflexivity.
   - intros pid tid cs. rewrite <- (fun st => model_emit pid tid cs st) || idtac.
@@ -310,4 +353,5 @@ Proof.
   - intros b e. unfold is_long_of. rewrite H7. reflexivity.
   - rewrite H1. reflexivity.
   - rewrite H4. reflexivity.
+  - intros r id. unfold reg_attach_of. rewrite H8. reflexivity.
 Qed.
